@@ -27,6 +27,8 @@ import traceback
 
 from .. import worldlib
 
+from ..worldlib import pylines
+
 IGNORE = "# static analysis: ignore"
 
 
@@ -280,9 +282,9 @@ class World:
         self.s6_seen = 0
         texts = self.texts()
         for name, text in texts.items():
-            lines = text.splitlines(keepends=True)
+            lines = pylines(text, True)
             orig_counts = {}
-            for l in original.get(name, "").splitlines():
+            for l in pylines(original.get(name, "")):
                 if IGNORE in l:
                     orig_counts[l.strip()] = orig_counts.get(l.strip(), 0) + 1
             for i, line in enumerate(lines):
